@@ -498,13 +498,22 @@ fn monitor(s: &mut Session, c: &Case, r: &Real) {
 						if (landed - requested).abs() > 1.0 {
 							let by = matches!(seeks[0], Cmd::SeekBy(_));
 							let d = landed - requested;
-							let class = if by && (d.abs() - 3.0).abs() <= 1.0 { Some("seek_by_measured_from_push_position") } else { None };
+							// F19: seek_by is measured from the transport (push) position, which runs 3 frames ahead of
+							// the frame heard — fewer once it has reached the end of the sound (it stops there: forward at
+							// frame n, backward on frame 0), which shows since seeks in that window take effect (F24 repaired)
+							let lead = if transport_ended { (if backward { (m - k0).saturating_sub(1) } else { m - k0 }).min(3) } else { 3 } as f64;
+							// (1e-6: `position() * sample_rate` and the index computation of seek_by each round once)
+							let class = if by && (d.abs() - lead).abs() <= 1.0 + 1e-6 { Some("seek_by_measured_from_push_position") } else { None };
 							s.fail(desc(), format!("callback {j}: {:?} read while frame {h} was being heard asks for frame {requested}; three frames later frame {landed} is heard ({d:+} frames off)", seeks[0]), class);
 							return;
 						}
 					}
 					_ => {
-						let class = if transport_ended { Some("seek_during_last_three_frames_ignored") } else { None };
+						// (F24, repaired: a seek read while the last three frames were being heard used to be
+						// ignored — the transport had stopped and `seek_to` never started it again; a recurrence
+						// is a plain failure)
+						let _ = transport_ended;
+						let class: Option<&str> = None;
 						s.fail(desc(), format!("callback {j}: {:?} read while frame {h} was audible asks for frame {requested} but silence is heard three frames later (state {})", seeks[0], r.steps.last().unwrap().state), class);
 						return;
 					}
@@ -567,6 +576,16 @@ struct Ctx {
 	cap_slow: u64,
 	hangs: u64,
 	cap_hangs: u64,
+	/// callbacks that did not return within the watchdog's time (each costs 3 s)
+	seen_hangs: u64,
+}
+/// a seek target further than a million frames away, or not finite: before the repair of F40 the cost
+/// of `Transport::seek_to` on a looping sound grew with target / loop length (1e300: it never returned)
+fn extreme_seek(c: &Case) -> bool {
+	c.steps.iter().flat_map(|st| st.cmds.iter()).any(|k| match k {
+		Cmd::SeekTo(t) | Cmd::SeekBy(t) => !t.is_finite() || (t * c.sr as f64).abs() > 1e6,
+		_ => false,
+	})
 }
 impl Ctx {
 	/// can this case make a loop spin? (then it runs under the watchdog)
@@ -586,17 +605,28 @@ impl Ctx {
 			_ => false,
 		}) || !c.rate.is_finite()
 			|| c.rate.abs() > 1e6
+			|| extreme_seek(c)
 	}
 	/// run on the implementation, monitor, and (if `to_model`) emit for the model
 	fn go(&mut self, kind: &str, c: &Case, to_model: bool) {
-		let wd = Self::may_hang(c);
-		if wd {
+		// the fixed regression cases always run, under the watchdog (until three callbacks have hung:
+		// the failure has been reported by then); an extreme seek costs a watchdog thread but is not
+		// expected to hang, so it does not use up the budget of expected hangs
+		let forced = kind.starts_with("regression_");
+		let wd = forced || Self::may_hang(c);
+		if self.seen_hangs >= 3 && (forced || extreme_seek(c)) {
+			return;
+		}
+		if wd && !forced && !extreme_seek(c) {
 			if self.hangs >= self.cap_hangs {
 				return;
 			}
 			self.hangs += 1;
 		}
 		let r = run_real(c, wd);
+		if r.end == Some(2000) || r.new_outcome == 2 {
+			self.seen_hangs += 1;
+		}
 		monitor(&mut self.s, c, &r);
 		let interp = !c.fast || c.steps.iter().any(|st| st.cmds.iter().any(|k| matches!(k, Cmd::Rate(..)))) || {
 			let inc = c.sr as f64 * c.rate.abs() * c.steps.first().map(|s| s.dt).unwrap_or(1.0);
@@ -814,7 +844,21 @@ fn random_case(r: &mut Rng, unit: bool, frames_cap: usize) -> Case {
 	let ncmd = if r.chance(1, 2) { 0 } else { r.range(1, 3) };
 	for _ in 0..ncmd {
 		let j = r.below(steps.len() as u64) as usize;
-		let k = match r.below(6) {
+		let k = match r.below(7) {
+			// any target at all: far beyond the sound and its loop region, huge, negative, not finite
+			6 => {
+				let t = match r.below(8) {
+					0 => 1e300,
+					1 => -1e300,
+					2 => f64::INFINITY,
+					3 => (n as f64 * r.range(2, 4_000_000) as f64 + r.below(n.max(1) as u64) as f64) / sr as f64,
+					4 => r.range(1, 1 << 40) as f64 / sr as f64,
+					5 => f64::from_bits(r.next()),
+					6 => -(r.range(1, 1 << 40) as f64) / sr as f64,
+					_ => 1.8446744073709552e19 / sr as f64,
+				};
+				if r.chance(1, 2) { Cmd::SeekTo(t) } else { Cmd::SeekBy(t) }
+			}
 			0 => Cmd::SeekTo(near(r, n.max(1)) as f64 / sr as f64),
 			1 => Cmd::SeekTo(r.unit_f64() * (n + 4) as f64 / sr as f64),
 			2 => Cmd::SeekBy((r.range(-40, 40) as f64) / sr as f64),
@@ -912,6 +956,72 @@ fn boundary(cx: &mut Ctx, thorough: bool) {
 			cx.go("boundary_seek", &c, true);
 		}
 	}
+	// F24 (repaired), REGRESSION: a seek read while the last three source frames are still being heard (the
+	// transport runs three frames ahead and has already stopped): the sound must play on from the target.
+	// Forward and backward, seek_to and seek_by, at each of the three positions and one callback later
+	// (Stopped: final), targets at the start, in the middle, the last frame, and beyond the end.
+	for len in [12usize, 5] {
+		for rev in [false, true] {
+			for rate in [1.0, -1.0] {
+				for k in [len - 3, len - 2, len - 1, len, len + 1] {
+					let backward = rev != (rate < 0.0);
+					let targets: Vec<Cmd> = vec![
+						Cmd::SeekTo(0.0),
+						Cmd::SeekTo(5.0 / sr as f64),
+						Cmd::SeekTo((len - 1) as f64 / sr as f64),
+						Cmd::SeekTo(len as f64 / sr as f64),
+						Cmd::SeekBy(if backward { 4.0 } else { -4.0 } / sr as f64),
+					];
+					for cmd in targets {
+						let mut c = base(len);
+						c.rev = rev;
+						c.rate = rate;
+						if rate < 0.0 && !rev {
+							c.start = Pos::Smp(len - 1);
+						}
+						c.steps = steps_plain(&[k, 2, len + 4], dt);
+						c.steps[1].cmds.push(cmd);
+						cx.go("regression_F24_seek_while_last_frames_play", &c, true);
+					}
+				}
+			}
+		}
+	}
+	// F40 (repaired), REGRESSION: a seek far beyond / below a loop region.  `seek_to(1e300)` and
+	// `seek_by(1e300)` saturate to usize::MAX: `Transport::seek_to` wrapped with one subtraction of the
+	// loop length per iteration and never returned; it must return at once with the position the
+	// model predicts (the remainder).  Every loop region of a small sound, both directions, the
+	// command read at the start, in the loop and after the transport has wrapped.
+	for (len, ls, le) in [(1usize, 0usize, 1usize), (3, 0, 3), (3, 0, 1), (3, 2, 3), (5, 1, 4), (5, 2, 3), (5, 0, 5), (12, 1, 11), (12, 3, 12)] {
+		for rev in [false, true] {
+			for t in [1e300, 1.8446744073709552e19 / 48000.0, 1e15, 3_000_001.0 / 48000.0, -1e300, f64::NAN] {
+				for by in [false, true] {
+					for at in [0usize, 2] {
+						let mut c = base(len);
+						c.rev = rev;
+						c.lp = Some((Pos::Smp(ls), End::Cus(Pos::Smp(le))));
+						c.steps = steps_plain(&[1, 2, len + 4], dt);
+						c.steps[at].cmds.push(if by { Cmd::SeekBy(t) } else { Cmd::SeekTo(t) });
+						cx.go("regression_F40_seek_far_beyond_loop", &c, true);
+					}
+				}
+			}
+		}
+	}
+	// ... the loop region set by a command read together with the seek, and a start position beyond the region
+	for (t, by) in [(1e300, false), (1e300, true), (-1e300, true), (1e12, false)] {
+		let mut c = base(12);
+		c.steps = steps_plain(&[2, 3, 9], dt);
+		c.steps[1].cmds.push(Cmd::Loop(Pos::Smp(2), End::Cus(Pos::Smp(7))));
+		c.steps[1].cmds.push(if by { Cmd::SeekBy(t) } else { Cmd::SeekTo(t) });
+		cx.go("regression_F40_seek_far_beyond_loop", &c, true);
+		let mut c = base(12);
+		c.start = Pos::Smp(10);
+		c.lp = Some((Pos::Smp(2), End::Cus(Pos::Smp(7))));
+		c.steps = steps_plain(&[1, 3, 9], dt);
+		c.steps[1].cmds.push(if by { Cmd::SeekBy(t) } else { Cmd::SeekTo(t) });
+		cx.go("regression_F40_seek_far_beyond_loop", &c, true);
+	}
 	// F20: device rate == sound rate but sr * (1/sr) != 1
 	for srx in [49u32, 98, 103, 107, 161, 187, 44100, 22050, 1, 3] {
 		let mut c = base(12);
@@ -925,6 +1035,34 @@ fn boundary(cx: &mut Ctx, thorough: bool) {
 	c.steps = steps_plain(&[3], dt);
 	let r = run_real(&c, true);
 	cx.s.case("boundary_rate_nan", case_term(&c), &r.obs, None);
+}
+
+/// The F40 regression cases in the form C01 replays them (it owns "every callback returns promptly"):
+/// (Gallina term of a `C04.Run.case`, what the implementation did, description).  A looping static
+/// sound, a seek far beyond / below the loop region read at the start of the second callback; run
+/// under the watchdog: `2000` at the end of the observation = the callback did not return within 3 s.
+pub fn f40_regression_cases() -> Vec<(String, Vec<i128>, String)> {
+	let sr = 48000u32;
+	let dt = 1.0 / sr as f64;
+	let mut v = vec![];
+	let mut hung = 0;
+	for (len, ls, le) in [(100usize, 0usize, 48usize), (5, 1, 4), (12, 3, 12), (3, 0, 1)] {
+		for rev in [false, true] {
+			for (t, by) in [(1e300, false), (1e300, true), (-1e300, true), (1.8446744073709552e19 / 48000.0, false), (1e15, false), (3_000_001.0 / 48000.0, true)] {
+				if hung >= 2 {
+					return v;
+				}
+				let mut c = Case { fast: true, sr, src: Src::Idx(len), slice: None, start: Pos::Smp(0), lp: Some((Pos::Smp(ls), End::Cus(Pos::Smp(le)))), rev, rate: 1.0, steps: steps_plain(&[2, 3, 6], dt) };
+				c.steps[1].cmds.push(if by { Cmd::SeekBy(t) } else { Cmd::SeekTo(t) });
+				let r = run_real(&c, true);
+				if r.end == Some(2000) || r.new_outcome == 2 {
+					hung += 1;
+				}
+				v.push((case_term(&c), r.obs.clone(), format!("{:?}", c)));
+			}
+		}
+	}
+	v
 }
 
 fn gen_f32(r: &mut Rng) -> f32 {
@@ -956,6 +1094,7 @@ pub fn run(args: &Args) {
 		cap_slow: (if args.thorough { 4_000 } else { 320 }) * m,
 		hangs: 0,
 		cap_hangs: if args.thorough { 40 } else { 16 },
+		seen_hangs: 0,
 	};
 
 	// ---- malformed requests first (they must be among the model cases)
